@@ -217,7 +217,16 @@ def _rule_objects():
         def production(self, op):
             self.calls += 1
             return [[], (), iter(())][self.calls % 3]
-    return {"A": A(), "B": B(), "H": Hr(), "Z": Zt(), "U3": U3GateToRotation(), "S": Split(), "D": Drop()}
+    class Memo:  # X -> S, S  handing out ONE list object per matched operation, kept by the rule (a memoising rule): what a rule returns stays the rule's
+        def __init__(self):
+            self.store = {}
+        def predicate(self, op): return op.gate.name == "X"
+        def production(self, op):
+            key = tuple(op.qubit_indices)
+            if key not in self.store:
+                self.store[key] = [C.S(*op.qubit_indices), C.S(*op.qubit_indices)]
+            return self.store[key]
+    return {"A": A(), "B": B(), "H": Hr(), "Z": Zt(), "U3": U3GateToRotation(), "S": Split(), "D": Drop(), "M": Memo()}
 
 
 RULE_CIRCUITS = [
@@ -227,6 +236,7 @@ RULE_CIRCUITS = [
     {"ops": [{"gate": G("T"), "q": [0]}, {"gate": G("U3", 0.3, 0.4, -0.4), "q": [1]}, {"gate": G("X"), "q": [1]}, {"gate": G("Z"), "q": [0]}], "n": 2},
     {"ops": [{"gate": G("T"), "q": [1]}, {"gate": G("CNOT"), "q": [0, 1]}], "n": 4},                             # nothing matches, idle qubits 2, 3
     {"ops": [], "n": 2},
+    {"ops": [{"gate": G("X"), "q": [0]}, {"gate": G("X"), "q": [0]}, {"gate": G("T"), "q": [1]}, {"gate": G("X"), "q": [1]}, {"gate": G("X"), "q": [0]}], "n": 2},      # the same matched operation several times
     {"ops": [{"gate": G("RZ", 4.4), "q": [0]}, {"gate": G("X"), "q": [1]}, {"gate": G("RZ", 0.5), "q": [1]}], "n": 2},
     # different gates under the same wrapper kind with equal parameters on the same qubits (a wrapper's name does not identify the gate)
     {"ops": [{"gate": W("controlled", G("RZ", 0.7), k=1), "q": [0, 1]}, {"gate": W("controlled", G("RY", 0.7), k=1), "q": [0, 1]}, {"gate": W("controlled", G("X"), k=1), "q": [1, 0]},
@@ -266,6 +276,14 @@ def rule_lists_case(case):
     if [sig_of(o) for o in got_ops] != [sig_of(o) for o in exp]:
         return {"ok": False, "msg": "rules %s via %s: result is not the rules applied in the order given, each to the output of the previous one" % (case["rules"], entry),
                 "expected": str([str(o) for o in exp]), "observed": str([str(o) for o in got_ops]), "sig": "rule-lists:order"}
+    if "M" in case["rules"]:
+        if any(len(v) != 2 for v in R["M"].store.values()):
+            return {"ok": False, "msg": "a list handed out by a rule's production was modified by the decomposition (rules %s via %s)" % (case["rules"], entry), "observed": str({k_: len(v) for k_, v in R["M"].store.items()}),
+                    "sig": "rule-lists:production-mutated"}
+        again = list(decompose_orquestra_circuit(circ, rules).operations) if entry == "circuit" else list(decompose_operations(list(circ.operations), rules))
+        if [sig_of(o) for o in again] != [sig_of(o) for o in exp]:
+            return {"ok": False, "msg": "a second decomposition with the same rule objects (one of them memoises its productions) differs from the first", "expected": str([str(o) for o in exp]), "observed": str([str(o) for o in again]),
+                    "sig": "rule-lists:second-run"}
     # operations that no rule ever touched are the same objects
     untouched = [o for o in before if not any(Rref[nm].predicate(o) for nm in case["rules"])]
     kept = [o for o in got_ops if any(o is u for u in untouched)]
@@ -458,6 +476,7 @@ def run(run):
     rl = [[]] + [list(p) for k in (1, 2, 3) for p in itertools.permutations(names, k)] + [["S", "S"], ["S", "U3", "S"], ["A", "A"], ["U3", "U3"]]
     if thorough:
         rl += [list(p) for p in itertools.permutations(names, 4)] + [[a, a] for a in names] + [[a, b, a] for a in names for b in names if a != b]
+    rl += [["M"], ["M", "U3"], ["U3", "M"], ["A", "M"], ["M", "D"], ["M", "M"]]
     rc = [{"circ": ci, "rules": r, "entry": e} for ci in range(len(RULE_CIRCUITS)) for r in rl for e in ("circuit", "list", "tuple", "iter", "gen")]
     secs.append(Section("rule_lists", rc, rule_lists_case, horizon=300, desc="every ordered list of <= 3 distinct rules out of 7 (X->Y, Y->ZZ, H->U3, Z->TTTT, U3->rotations, RZ(a)->RZ(a/2)RZ(a/2), T->nothing) x 8 circuits (idle qubits, "
                         "empty) x 5 ways of handing the operations over (circuit, list, tuple, one-shot iterator, generator)"))
